@@ -319,6 +319,44 @@ func apiStream(r *vh.Rng, n int, maxFaults int, sum *vh.Summary) {
 				sum.Fail("api", "Encode after a failed Encode succeeded or wrote bytes", cj)
 			}
 		}
+		// 3. reuse after a failure: an Encode that failed part-way (write fault at call k, or an
+		// unencodable element after a prefix), then Reset onto a healthy writer: the next Encode
+		// must deliver exactly the []byte output again (by the time it returns)
+		for variant := 0; variant < 2; variant++ {
+			var enc *codec.Encoder
+			if variant == 0 {
+				if ncalls == 0 {
+					continue
+				}
+				k := r.Intn(ncalls)
+				sc := make([]resp, k+1)
+				for j := range sc {
+					sc[j] = resp{1 << 30, false}
+				}
+				sc[k] = resp{0, true}
+				enc = codec.NewEncoder(&scriptWriter{script: sc}, h)
+				if err := enc.Encode(v.Interface()); err == nil {
+					continue
+				}
+			} else {
+				enc = codec.NewEncoder(&scriptWriter{}, h)
+				if err := enc.Encode([]interface{}{"prefix", v.Interface(), complex(1, 2)}); err == nil {
+					continue
+				}
+			}
+			for rep := 0; rep < 2; rep++ {
+				w2 := &scriptWriter{}
+				enc.Reset(w2)
+				err2 := enc.Encode(v.Interface())
+				if err2 != nil || !bytes.Equal(w2.recv, want) {
+					cj["got"] = vh.Hex(w2.recv)
+					cj["err"] = fmt.Sprint(err2)
+					cj["reuse_variant"] = variant
+					sum.FailC("api", "reuse-after-failed-encode", "after a failed Encode and Reset, Encode to a healthy writer does not deliver the []byte output", cj)
+				}
+			}
+			sum.Dist["api.reuse-after-failure"]++
+		}
 		key := fmt.Sprintf("%s/%s/wbs%d/calls%d/len%d", format, vh.DescribeKind(t), wbs, min(ncalls, 10), min(len(want), 300)/10)
 		if len(want) <= 1 {
 			key = ""
